@@ -57,6 +57,17 @@ Disjoint(boffs, bsizes) == \A bi \in 1..Len(boffs) : \A bj \in (bi + 1)..Len(bof
                               boffs[bi] + bsizes[bi] <= boffs[bj] \/ boffs[bj] + bsizes[bj] <= boffs[bi]
 Ascending(boffs) == \A bi \in 1..(Len(boffs) - 1) : boffs[bi] < boffs[bi + 1]
 
+\* ---- the file-path API as a byte producer ------------------------------------------------------------
+\* save_blp(x, path) must leave at `path` (and, for BLP0, at the external level files path.b00, .b01, ...) exactly
+\* the bytes encode would produce, whatever was there before: nothing, a shorter earlier save, a longer one.
+PreStates == {"absent", "shorter", "longer"}
+\* length of a file of bprev bytes (-1: absent) after bnew bytes were written from offset 0
+AfterSave(bprev, bnew, btruncating) == IF btruncating THEN bnew ELSE BMax(bprev, bnew)
+\* a save is a faithful byte producer for every pre-state iff it truncates
+SaveLaw == \A bprev \in {-1, 0, 10, 50, 99, 100, 101, 1000} : \A bnew \in {0, 10, 100} :
+             /\ AfterSave(bprev, bnew, TRUE) = bnew
+             /\ (AfterSave(bprev, bnew, FALSE) = bnew <=> bprev <= bnew)
+
 \* ---- alpha quantisation (palettised encoding) ---------------------------------------------------
 \* decoded alpha bd for source alpha ba at depth bbits: 8 -> identity; 4 -> a multiple of 17 nearest to
 \* the source; 1 -> fully transparent or opaque, the two extremes fixed; 0 -> no alpha channel
